@@ -35,9 +35,9 @@ import (
 
 type caseT struct {
 	Index     int    `json:"index"`
-	Path      string `json:"path"`  // poller | blocking-parser | std-readloop | std-manual-readloop | transfer-blocking | transfer-std | mixed
-	Mode      string `json:"mode"`  // LT | ET | ONESHOT (the engine that polls / serves)
-	TLS       bool   `json:"tls"`   // engine-served paths only
+	Path      string `json:"path"`   // poller | blocking-parser | std-readloop | std-manual-readloop | transfer-blocking | transfer-std | mixed
+	Mode      string `json:"mode"`   // LT | ET | ONESHOT (the engine that polls / serves)
+	TLS       bool   `json:"tls"`    // engine-served paths only
 	Queued    bool   `json:"queued"` // BlockingModAsyncWrite
 	Conns     int    `json:"conns"`
 	Writers   int    `json:"writers"`
